@@ -583,6 +583,18 @@ def deep_eq(E, a, b):
         for x, y in zip(a.items, b.items):
             r = b_and(r, deep_eq(E, x, y))
         return r
+    if isinstance(a, LazyV) and isinstance(b, StructV) and not b.lazy:
+        a, b = b, a
+    if isinstance(a, StructV) and not a.lazy and isinstance(b, LazyV):
+        # materialise the lazy side field-wise with the types of the concrete side
+        r = True
+        for k, fv in a.fields.items():
+            fv = E.deref(fv)
+            ty = fv.ty if isinstance(fv, IntV) else E.value_type(fv)
+            if ty is None:
+                raise Inconclusive('deep_eq: cannot type field %d of %r' % (k, a))
+            r = b_and(r, deep_eq(E, fv, E.materialize(ty, '%s.%d' % (b.name, k))))
+        return r
     if isinstance(a, (StructV, LazyV)) and isinstance(b, (StructV, LazyV)):
         # need field lists: only possible when both are fully materialised with same keys
         if isinstance(a, StructV) and isinstance(b, StructV) and not a.lazy and not b.lazy \
@@ -882,7 +894,7 @@ def _(E, c):
     return OpaqueV('String')
 
 
-@model('must_use', 're:^hint::must_use$', 're:^identity$', 're:^convert::identity$', 'hint::black_box')
+@model('must_use', 're:^hint::must_use$', 're:^identity$', 're:^convert::identity$', 'hint::black_box', '__private::must_use')
 def _(E, c):
     return c.args[0]
 
@@ -1232,6 +1244,11 @@ def as_iter(E, v):
         return v.obj
     if isinstance(v, RefV):
         tgt = E.get_path(v.cell.value, v.path)
+        if isinstance(tgt, LazyV) and type_head(tgt.ty) in ('Vec', 'slice'):
+            mat = E.materialize(tgt.ty, tgt.name)
+            if isinstance(mat, VecV):
+                E.store(v, mat)
+                tgt = mat
         if isinstance(tgt, ObjV) and isinstance(tgt.obj, Iter):
             return tgt.obj
         if isinstance(tgt, VecV):
@@ -1561,6 +1578,10 @@ def _(E, c):
 
 def vec_of(E, v):
     t = E.deref(v)
+    if isinstance(t, LazyV) and type_head(t.ty) in ('Vec', 'slice'):
+        t = E.materialize(t.ty, t.name)
+        if isinstance(t, VecV) and isinstance(v, RefV):
+            E.store(v, t)
     if isinstance(t, LazyV) and type_head(t.ty) in ('Vec', 'slice'):
         raise Inconclusive('Vec of unknown length (%s): the obligation must fix its length' % t.name)
     if isinstance(t, StructV) and type_head(t.ty or '') == 'Box':
